@@ -283,6 +283,14 @@ impl Runner for TalkRunner {
                 out.push("!OP tnop".into());
                 out.push("noop".into());
             }
+            // the application sits on what it holds for a while (real time)
+            ["tsleep", ms] => {
+                let ms: u64 = ms.parse().unwrap_or(0).min(600);
+                std::thread::sleep(std::time::Duration::from_millis(ms));
+                stats.bump("t.application-waits");
+                out.push("!OP tsleep".into());
+                out.push("ok".into());
+            }
             ["tshutdown"] => {
                 if self.shut {
                     return noop(out);
@@ -375,6 +383,10 @@ pub fn gen_case(rng: &mut Rng, tier: &str, _profile: &str, stats: &mut Stats) ->
             ops.push("tshutdown".into());
             shut = true;
         }
+    }
+    if rng.chance(1, 6) {
+        // the application gets round to what it holds only after the requesters have given up waiting
+        ops.push("tsleep 250".into());
     }
     // act on everything that is still held (half of the cases after a shutdown)
     if !shut && rng.chance(1, 2) {
